@@ -116,13 +116,16 @@ CHECKS = {
               "weights), magnitude >= 1, strictly smaller key => strictly smaller magnitude (weight_strict_mono; later rows above "
               "earlier rows, then magnitude), and magnitude = 1 + the sum of the magnitudes of ALL columns ranked strictly below "
               "(weight_dominates, shadow_strictly_dominates) — by an invariant of the allocation along any sorted key list "
-              "(Lemmas/Shadow.lean: table_weight, insertion sort is a sorted permutation). About the integer bit allocation "
+              "(Lemmas/Shadow.lean: table_weight, insertion sort is a sorted permutation). About `prio` in key form (prioSpec): "
+              "rank_strict_mono, rank_dense, rank_pos, rank_le_distinct — the rank is a function of the key, strictly smaller key "
+              "=> strictly smaller rank, rank = 1 + number of distinct keys strictly below (dense, at most the number of distinct "
+              "keys); `rank` is compared as ranking(prioSpec). About the integer bit allocation "
               "that puan-rspy computes: oba_pos, oba_equal, oba_dominates, oba_mono. Tie: ndint_compress compared, for shadow, "
-              "BOTH with the model that mirrors the code's plumbing (shadow2d) and with shadowSpec, on 1-D, 2-D (both axes) and 3-D "
+              "BOTH with the model that mirrors the code's plumbing (shadow2d / prio2d) and with the key forms shadowSpec / prioSpec, on 1-D, 2-D (both axes) and 3-D "
               "batches incl. all-zero and fully overridden rows; py_optimized_bit_allocation_64 compared with oba; prio / rank / "
               "first / last / min / max compared with the model; oracle: the statement's clauses checked on the real output per "
               "2-D slice; thorough: every 3x3 array over {-1,0,1,2} and every 2x3 array over {-2..2} x 7 methods."),
-        note="prio / rank (dense rankings) and first / last / min / max have no theorem: they rest on the correspondence and the oracle. 64-bit overflow is outside the model (unbounded Int); generated sizes keep totals far below 2^63.",
+        note="first / last / min / max, and the final `ranking` step of `rank`, have no theorem: they rest on the correspondence and the oracle. 64-bit overflow is outside the model (unbounded Int); generated sizes keep totals far below 2^63.",
         technique="Lean 4 theorem (invariant of the bit allocation over sorted keys, insertion-sort permutation) + differential correspondence against both the plumbing model and the key specification + clause-by-clause oracle",
         ref="§4 C13, §10"),
     "C10": dict(
